@@ -69,15 +69,15 @@ def _kind(name):
             'KeyError': 'key', 'AttributeError': 'attribute'}.get(name, 'other')
 
 
-def _alphabet(ctx):
+def _alphabet(ctx, variant=0):
     """[(descr, object)] : 48 codes x 2 classes; plus the alias map used by the oracle."""
     from pydicom.sr._snomed_dict import mapping
     from pydicom.sr.coding import Code
     from highdicom.sr.coding import CodedConcept
     srt = mapping['SRT']
     keys = sorted(srt)
-    r = ctx.rng('alphabet')
-    if ctx.seed == 0:
+    r = ctx.rng('alphabet', variant)
+    if ctx.seed == 0 and variant == 0:
         old = 'T-A0100'
     else:
         old = r.choice(keys)
@@ -94,7 +94,7 @@ def _alphabet(ctx):
     for s, v, m, ver in itertools.product(schemes, values, meanings, versions):
         for cls in ('code', 'concept'):
             o = Code(v, s, m, ver) if cls == 'code' else CodedConcept(v, s, m, ver)
-            objs.append(({'scheme': s, 'value': v, 'meaning': m, 'version': ver, 'cls': cls}, o))
+            objs.append(({'scheme': s, 'value': v, 'meaning': m, 'version': ver, 'cls': cls, 'variant': variant}, o))
     alias = {('SRT', old): ('SCT', new)}
     retired = [[v, srt[v]] for v in values if v in srt]
     return objs, alias, retired
@@ -106,8 +106,8 @@ def _okey(alias, d):
 
 
 # ------------------------------------------------------------------ 1. pairs and triples
-def _relations(ctx, reqs, pending):
-    objs, alias, retired = _alphabet(ctx)
+def _relations(ctx, reqs, pending, variant=0):
+    objs, alias, retired = _alphabet(ctx, variant)
     n = len(objs)
     E = np.zeros((n, n), bool)
     ok = np.ones((n, n), bool)
@@ -162,7 +162,7 @@ def _relations(ctx, reqs, pending):
             if (i + j) % 7 == 0:
                 reqs.append(('ne', {'a': _enc(a), 'b': _enc(b), 'retired': retired}))
                 pending.append((dict(case, what='ne'), ('ok', bool(ne))))
-    ctx.exhaustive.append(f'all {n * n} ordered pairs of the {n}-object alphabet (==, !=, hash, set, dict)')
+    ctx.exhaustive.append(f'alphabet {variant}: all {n * n} ordered pairs of the {n}-object alphabet (==, !=, hash, set, dict)')
     # relations on the real results (not via the key)
     for i in range(n):
         if ok[i, i] and not E[i, i]:
@@ -183,7 +183,7 @@ def _relations(ctx, reqs, pending):
     ctx.evaluations += n * n * n
     ctx.hist('triples', 'checked', n * n * n)
     ctx.hist('triples', 'with a==b and b==c', int((Ei @ Ei).sum()))
-    ctx.exhaustive.append(f'all {n ** 3} triples of the {n}-object alphabet for transitivity (through the matrix of real == results; '
+    ctx.exhaustive.append(f'alphabet {variant}: all {n ** 3} triples of the {n}-object alphabet for transitivity (through the matrix of real == results; '
                           f'{int((Ei @ Ei).sum())} with both premises true)')
     # meaning independence stated directly: objects that differ only in meaning behave identically
     for i, (da, a) in enumerate(objs):
@@ -476,6 +476,8 @@ def run(ctx):
     import hd_env  # noqa: F401
     reqs, pending = [], []
     objs, alias, retired = _relations(ctx, reqs, pending)
+    for variant in range(1, ctx.n(2, 8)):
+        _relations(ctx, reqs, pending, variant)
     _constructor(ctx, reqs, pending)
     _from_dataset(ctx, reqs, pending)
     _from_code(ctx, objs, retired, reqs, pending)
@@ -497,7 +499,7 @@ def replay(ctx, case):
     what = case.get('what')
     if what in ('pair', 'symm', 'meaning', 'setLen2', 'ne'):
         a, b = mk(case['a']), mk(case['b'])
-        _, alias, _ = _alphabet(sub)
+        _, alias, _ = _alphabet(sub, case['a'].get('variant', 0))
         from pydicom.sr._snomed_dict import mapping
         for d in (case['a'], case['b']):
             if d['scheme'] == 'SRT' and d['value'] in mapping['SRT']:
